@@ -6,15 +6,15 @@ import Rivaas.Lemmas.PresenceLeaf
 Driver for C05. Case line (strings hex-encoded, lists as `n item…`):
 
   <id> J <json> R <n> { <path> <resolves> <n> { <tag> <n> <shown path>… }* <num> <embedded> <cresolves> <cpanics> <n> <ctag>… }*
-       T <shape> W <n> { <n> <index>… <tag> <n> { <tag> <n> <relative shown path>… }* }*     (partial mode; else `T X W 0`)
+       T <shape> W <n> { <n> <index>… <tag> <n> { <tag> <shape of e.Value()> }* }*     (partial mode; else `T X W 0`)
        O <mode 0=partial 1=full 2=runAll 3=interface> <maxErrors> <maxFields> <n> <redacted path>… <singleRule>
-       F <n> { <json path> <path as shipped> <tag> <n> <shown path>… }*
+       F <n> { <json path> <path as shipped> <tag> <n> <shown path>… <shape of e.Value()> }*
        I <n> { <path> <code> }*        (what the type's Validate() method returns; modes 2 = all strategies, 3 = interface only)
     => PM <n> <path>… LV <n> <path>… V ( N | P | E <truncated> <n> { <path> <code> <hidden> }* )
        K <leak> D <deterministic>
 
   <json> ::= L | O <n> { <key> <json> }* | A <n> <json>*
-  <shape> ::= X | Z | Q <shape> | S <n> <shape>* | T <n> { <go name> <json tag> <anonymous> <struct-typed> <validate tag> <shape> }*
+  <shape> ::= X | Z | Q <shape> | I <shape> | N | M <n> { <key> <shape> }* | S <n> <shape>* | T <n> { <go name> <json tag> <anonymous> <struct-typed> <validate tag> <shape> }*
 -/
 namespace Rivaas.DriverC05
 open Rivaas.Proto Rivaas.Presence
@@ -40,6 +40,11 @@ partial def pShape : P Shape := do
   else if k == "S" then do
     let n ← nat
     Shape.seq <$> manyN n pShape
+  else if k == "I" then Shape.iface <$> pShape
+  else if k == "N" then pure .nilIface
+  else if k == "M" then do
+    let n ← nat
+    Shape.map <$> manyN n (do let key ← str; let v ← pShape; pure (key, v))
   else if k == "T" then do
     let n ← nat
     let fs ← manyN n (do
@@ -80,6 +85,8 @@ structure Case where
   fullErrs : List (Path × Viol)
   /-- the same errors with the path as `namespaceToJSONPath` computed it before the repair of K05e -/
   fullErrsAsIs : List (Path × Viol)
+  /-- the same errors with the revealed paths computed by the model's own redaction walk over the shape of `e.Value()` -/
+  fullErrsT : List (Path × Viol)
 
 def pCase : P Case := do
   lit "J"
@@ -92,7 +99,7 @@ def pCase : P Case := do
   lit "T"
   let shape ← pShape
   lit "W"
-  let var ← list (do let loc ← list nat; let t ← str; let vs ← list pViol; pure (loc, t, vs))
+  let var ← list (do let loc ← list nat; let t ← str; let vs ← list (do let tg ← str; let sh ← pShape; pure (tg, sh)); pure (loc, t, vs))
   lit "O"
   let mode ← nat
   let me ← nat
@@ -100,12 +107,13 @@ def pCase : P Case := do
   let red ← list str
   let single ← bool
   lit "F"
-  let fe ← list (do let p ← str; let ap ← str; let t ← pViol; pure (p, ap, t))
+  let fe ← list (do let p ← str; let ap ← str; let t ← pViol; let sh ← pShape; pure (p, ap, t, sh))
   lit "I"
   let ie ← list (do let p ← str; let c ← str; pure ({ path := p, code := c, hidden := false } : FieldErr))
   pure { top := top, rules := rules, shape := shape, var := var, full := mode != 0, mode := mode, iface := ie,
          opts := { maxErrors := me, maxFields := mf, redacted := red }, single := single,
-         fullErrs := fe.map fun (p, _, t) => (p, t), fullErrsAsIs := fe.map fun (_, ap, t) => (ap, t) }
+         fullErrs := fe.map fun (p, _, t, _) => (p, t), fullErrsAsIs := fe.map fun (_, ap, t, _) => (ap, t),
+         fullErrsT := fe.map fun (p, _, t, sh) => (p, ({ tag := t.tag, shows := reveals (maxRecursionDepth + 1) p sh } : Viol)) }
 
 /-- what `Validate`/`ValidatePartial` did: panic, nil, or a `*validation.Error` -/
 inductive VObs where
@@ -163,9 +171,9 @@ def modelLeaves (pm : List Path) : List Path := leafPaths pm
     that the leaf list computed for the comparison is reused and the compiled code goes through the
     `@[csimp]` implementation of `leafPaths` (`Lemmas/PresenceLeaf.lean`) -/
 def modelValidate (c : Case) (leaves : List Path) : VObs :=
-  if c.mode == 2 then .res (validateAll [coerce c.iface c.opts, validateFull c.fullErrs c.opts] c.opts)
+  if c.mode == 2 then .res (validateAll [coerce c.iface c.opts, validateFull c.fullErrsT c.opts] c.opts)
   else if c.mode == 3 then .res (coerce c.iface c.opts)
-  else if c.mode == 1 then .res (validateFull c.fullErrs c.opts)
+  else if c.mode == 1 then .res (validateFull c.fullErrsT c.opts)
   else .res (partialFrom mkErr leaves (ownTagsT c.shape c.var) c.opts)
 
 /-- errors that ought to be reported, evaluated on the presence set the implementation reported -/
